@@ -2,7 +2,7 @@ from checks._pool_common import ASSUMPTIONS, COMPONENTS, make, simplify_knobs, s
 
 PROP = "C12"
 LEVEL = "exploration"
-RUNS = {"quick": 40000, "thorough": 2000000}
+RUNS = {"quick": 60000, "thorough": 2000000}
 BUDGET_S = {"quick": 45, "thorough": 840}
 CHUNK = 400
 RULE = ('One evaluation = one seeded run as in C11. Invariant after every loop iteration: processes alive and not yet sent SIGKILL <= cores. At every full-quiescence point (nothing runnable, no timer, no undrained process): no ready task waits while a core is free. Non-trivial = the core limit was reached and more tasks than cores were accepted; distinct = different event-log digest.')
